@@ -1338,6 +1338,45 @@ func ruleDecodeDirect(c *Ctx, r *Rep) {
 			}
 			key := nt.Obj().Name() + "|" + c.FuncKey(fn)
 			n[key]++
+			// all of the document: the bytes are not a cut-out of the text (a version key, a subject or an extension
+			// behind the cut would not be there for the decoder, and the file would count as something else)
+			part := ""
+			seenV := map[ssa.Value]bool{}
+			var walk func(v ssa.Value, d int)
+			walk = func(v ssa.Value, d int) {
+				if d > 8 || seenV[v] || part != "" {
+					return
+				}
+				seenV[v] = true
+				switch x := v.(type) {
+				case *ssa.Slice:
+					if x.Low != nil || x.High != nil {
+						if _, isArr := x.X.Type().Underlying().(*types.Pointer); !isArr {
+							part = c.Pos(x.Pos()) + ": " + x.String()
+							return
+						}
+					}
+					walk(x.X, d+1)
+				case *ssa.Convert:
+					walk(x.X, d+1)
+				case *ssa.ChangeType:
+					walk(x.X, d+1)
+				case *ssa.Phi:
+					for _, e := range x.Edges {
+						walk(e, d+1)
+					}
+				case *ssa.UnOp:
+					if al, isAl := x.X.(*ssa.Alloc); isAl && x.Op == token.MUL && al.Referrers() != nil {
+						for _, ref := range *al.Referrers() {
+							if st, isSt := ref.(*ssa.Store); isSt && st.Addr == ssa.Value(al) {
+								walk(st.Val, d+1)
+							}
+						}
+					}
+				}
+			}
+			walk(ci.Common().Args[0], 0)
+			r.Check(part == "", sprintf("whole-document|%s#%d", key, n[key]), c.Pos(ci.Pos()), "the decoder is handed all of the text, not a cut-out of it", part)
 			r.Check(len(re) == 0, sprintf("document-bytes|%s#%d", key, n[key]), c.Pos(ci.Pos()), "the decoder reads the document (or its YAML-to-JSON conversion), not a re-encoded generic value", strings.Join(uniq(re), "; "))
 		}
 	}
